@@ -129,9 +129,10 @@ def run_property(mod, pid, tier, seed, only=None, jobs=0, keep=False, write_evid
                     if r.verdict == K.FAIL:
                         violations.append(("kani", r))
                     elif r.verdict == K.INCONCLUSIVE:
-                        if tier == "thorough" and re.search(r"memory cap|timeout after|no verdict in log", r.reason or ""):
+                        if tier == "thorough" and re.search(r"memory cap|timeout after|no verdict in log|unwinding assertion failed", r.reason or ""):
                             # the thorough tier reaches for instances beyond the measured envelope: one that runs out of its
-                            # memory / time budget is reported as not decided (log line + evidence), it is neither success nor alarm
+                            # memory / time budget -- or whose unwinding bound turns out too small for it -- is reported as not
+                            # decided (log line + evidence), it is neither success nor alarm
                             undecided.append("%s: %s" % (r.inst.name, r.reason))
                         else:
                             inconclusive.append("%s: %s" % (r.inst.name, r.reason))
